@@ -14,6 +14,7 @@ from vf.models import align_ref as R
 ID = "C08"
 FLAVOUR = "san"
 LEVEL = "exploration"
+THOROUGH_MULT = 3.0       # deepens the sampled strata of the thorough tier (measured: about ten minutes on 16 cores)
 RULE = (
     "seeded generator: two code sequences (length 0-14; stratum `large` 15-60 quick / 15-200 thorough) over "
     "alphabets of size 1-6 (stratum `wide_codes`: 300 and 70 000 symbols -> uint16/uint32 codes), separate alphabet "
